@@ -454,6 +454,8 @@ def reuse_worlds(tier):
     worlds.append(("two-bams", w1, ["SPLIT2", "--read_group", "file_name"]))
     # the same without --read_group: an experiment with several files is grouped by file name automatically
     worlds.append(("two-bams-auto", w1, ["SPLIT2"]))
+    # two experiments in one run (YAML): the restart is given both save prefixes
+    worlds.append(("two-experiments", w1, ["YAML2"]))
     # read groups from a table file (the only grouping mode with files of its own next to the saved assignments)
     worlds.append(("table-groups", w1, ["TABLE"]))
     if tier == "thorough":
@@ -482,7 +484,22 @@ def reuse_case(args):
                 if i % 4:
                     f.write("%s\tg%d\n" % (r["name"], i % 3))
         extra = [x for x in extra if x != "TABLE"] + ["--read_group", "file:" + tbl]
-    argv1 = run.base_argv(paths, out1, extra=["--keep_tmp"] + [x for x in extra if x != "SPLIT2"])
+    argv1 = run.base_argv(paths, out1, extra=["--keep_tmp"] + [x for x in extra if x not in ("SPLIT2", "YAML2")])
+    pairs = [("OUT", "OUT0")]
+    saves = [os.path.join(out1, "OUT", "aux", "OUT.save")]
+    if "YAML2" in extra:
+        import yaml
+        seqs = syn.genome_sequences(world)
+        syn.write_bam(world, os.path.join(d, "e1.bam"), reads=[r for r in world["reads"] if r["chr"] == "chr1"], seqs=seqs)
+        syn.write_bam(world, os.path.join(d, "e2.bam"), reads=[r for r in world["reads"] if r["chr"] != "chr1"], seqs=seqs)
+        with open(os.path.join(d, "in.yaml"), "w") as f:
+            yaml.safe_dump([{"data format": "bam"}, {"name": "E1", "long read files": ["e1.bam"]},
+                            {"name": "E2", "long read files": ["e2.bam"]}], f)
+        i = argv1.index("--bam")
+        argv1[i:i + 2] = ["--yaml", os.path.join(d, "in.yaml")]
+        extra = [x for x in extra if x != "YAML2"]
+        pairs = [("E1", "OUT0"), ("E2", "OUT1")]
+        saves = [os.path.join(out1, e, "aux", e + ".save") for e in ("E1", "E2")]
     if "SPLIT2" in extra:
         seqs = syn.genome_sequences(world)
         ra = [r for r in world["reads"] if r["name"].startswith("novel") or r["name"].endswith("_0") or r["name"] in ("ism", "mono")]
@@ -495,13 +512,14 @@ def reuse_case(args):
     rc1 = run.run_isoquant(argv1, paths["home"], os.path.join(d, "o1.txt"))
     if rc1 != 0:
         return name, "first run failed rc=%d" % rc1, None
-    save = os.path.join(out1, "OUT", "aux", "OUT.save")
     out2 = os.path.join(d, "out2")
-    argv2 = ["--output", out2, "--reference", paths["ref"], "--read_assignments", save, "--data_type",
+    argv2 = ["--output", out2, "--reference", paths["ref"], "--read_assignments"] + saves + ["--data_type",
              "nanopore" if "--data_type" not in extra else extra[extra.index("--data_type") + 1],
              "--genedb", paths["gtf"], "--complete_genedb", "--prefix", "OUT", "--threads", "1"] + \
             [x for x in extra if x not in ("--data_type", "pacbio_ccs")]
-    t1 = run.read_tree(os.path.join(out1, "OUT"))
+    t1 = {}
+    for e, o in pairs:
+        t1.update({o + "/" + k.replace(e + ".", "OUT.", 1): v.replace(e.encode(), b"OUT") for k, v in run.read_tree(os.path.join(out1, e)).items()})
     diffs = []
     # a history of restarts from the SAME saved assignments (the first without --keep_tmp, the second with it, the third without):
     # every one of them has to reproduce the saving run, i.e. a restart must not consume or alter what it was started from
@@ -512,8 +530,9 @@ def reuse_case(args):
         rc2 = run.run_isoquant(av + (["--keep_tmp"] if keep else []), paths["home"], os.path.join(d, "o2.txt"))
         if rc2 != 0:
             return name, "reuse run %d failed rc=%d: %s" % (step + 1, rc2, open(os.path.join(d, "o2.txt")).read()[-400:]), None
-        t2 = run.read_tree(os.path.join(outn, "OUT0"))
-        t2n = {k.replace("OUT0.", "OUT."): v.replace(b"OUT0", b"OUT") for k, v in t2.items()}
+        t2n = {}
+        for e, o in pairs:
+            t2n.update({o + "/" + k.replace(o + ".", "OUT.", 1): v.replace(o.encode(), b"OUT") for k, v in run.read_tree(os.path.join(outn, o)).items()})
         sfx = "" if step == 0 else ":restart%d" % (step + 1)
         for k in sorted(set(t1) | set(t2n)):
             if k not in t2n:
